@@ -486,7 +486,6 @@ impl<T: Elem + SatisfyTraits<Tr>, M: MX, Tr: TrX + ?Sized> World<T, M, Tr> {
 pub fn adapt_ops() -> Vec<u8> {
     let mut v = Vec::new();
     for pre in 0..3u8 { for which in 0..8u8 { for n in 0..6u8 {
-        if which == 7 && n > 4 { continue; }
         v.push(pre << 6 | which << 3 | n);
     } } }
     v
@@ -514,7 +513,11 @@ pub fn adapt<I: DoubleEndedIterator + ExactSizeIterator, X>(it: &mut I, op: u8, 
             1 => { let c = it.by_ref().count(); out.push(AObs::Count(c)); }
             2 => { for x in it.by_ref().rev().take(8) { one(Some(x), &mut out); } }
             3 => { let x = it.nth(1); one(x, &mut out); let y = it.nth_back(0); one(y, &mut out); }
-            _ => { let x = it.nth_back(1); one(x, &mut out); let y = it.nth(0); one(y, &mut out); }
+            4 => { let x = it.nth_back(1); one(x, &mut out); let y = it.nth(0); one(y, &mut out); }
+            // internal iteration (an overridden fold / rfold / for_each must visit the same items in the same order)
+            5 => { let mut items = { let _w = elem::WindowOff::new(); Vec::with_capacity(256) }; it.by_ref().fold((), |(), x| items.push(x)); for x in items { one(Some(x), &mut out); } }
+            6 => { let mut items = { let _w = elem::WindowOff::new(); Vec::with_capacity(256) }; it.by_ref().rfold((), |(), x| items.push(x)); for x in items { one(Some(x), &mut out); } }
+            _ => { let mut items = { let _w = elem::WindowOff::new(); Vec::with_capacity(256) }; it.by_ref().rev().for_each(|x| items.push(x)); for x in items { one(Some(x), &mut out); } }
         },
     }
     // what is left: reported length, then (bounded) the remaining items from both ends, then fusedness
